@@ -28,7 +28,7 @@ class C05(Engine):
     name = "read-fault-sim"
     level = "fault_enumeration"
     expected_kinds = {"prefix_tok", "prefix_chr", "tok_del", "tok_rep", "tok_ins", "tok_swap", "edit_pair", "flip",
-                      "non_ascii", "bad_utf8", "lex_exhaustive", "lex_seeded", "lex_long_run", "pipeline_long_run", "pipeline_deep_nest", "cli_level"}
+                      "non_ascii", "bad_utf8", "lex_exhaustive", "lex_seeded", "lex_long_run", "pipeline_long_run", "pipeline_deep_nest", "cli_level", "prefix_line", "tok_rep_kw"}
     rule_text = ("Every workload program (repository samples, generated conforming/violating files, literal families) x both file "
                  "types x every token boundary (prefix_tok) and every single-token deletion (tok_del) is executed, plus the middle of "
                  "every multi-character token (prefix_chr), seeded token replace/insert/swap/pairs, byte flips, non-ASCII and invalid "
@@ -112,6 +112,33 @@ class C05(Engine):
                     idx += 1
                     if e - a >= 3 and t in ("STRING", "CHAR_CONST", "MULT_COMMENT", "COMMENT", "CONSTANT"):
                         yield idx, self.derived(b, names[1], [[a + 1, L, ""]], f"prefix_chr({a + 1})", "prefix_chr")
+                        idx += 1
+            # short read at every line boundary (a torn write typically ends on a line), both file types
+            for nm in names:
+                for k2 in range(0, n):
+                    if spans[k2][2] == "NEWLINE":
+                        yield idx, self.derived(b, nm, [[spans[k2][1], L, ""]], f"prefix_line(tok {k2})", "prefix_line")
+                        idx += 1
+            # an identifier replaced by a keyword token: every identifier on a preprocessor line, the others sampled
+            KW = ["NULL", "int", "inline", "return", "sizeof", "struct", "if", "defined", "void", "const"]
+            line_has_hash = set()
+            lineno = 0
+            cur = []
+            for k2 in range(n):
+                cur.append(k2)
+                if spans[k2][2] == "NEWLINE" or k2 == n - 1:
+                    if any(spans[j][2] == "HASH" for j in cur):
+                        line_has_hash.update(cur)
+                    cur = []
+            for k2 in range(n):
+                if spans[k2][2] == "IDENTIFIER" and (k2 in line_has_hash or rng.random() < (0.05 if q else 0.3)):
+                    a, e, _ = spans[k2]
+                    kw = KW[rng.randrange(len(KW))]
+                    nm = names[rng.randrange(2)] if k2 not in line_has_hash else names[k2 % 2]
+                    yield idx, self.derived(b, nm, [[a, e, kw]], f"tok_rep_kw({k2},{kw})", "tok_rep_kw")
+                    idx += 1
+                    if k2 in line_has_hash:
+                        yield idx, self.derived(b, names[(k2 + 1) % 2], [[a, e, KW[(rng.randrange(len(KW)))]]], f"tok_rep_kw({k2})", "tok_rep_kw")
                         idx += 1
             # sampled edits
             n_s = max(20, n // 3) if q else n * 2
@@ -206,6 +233,13 @@ class C05(Engine):
         yield from flush("lex_seeded")
         # long runs of one unmatched thing
         units = ["(", "[", "{", "@", "\\\n", "0x", "'", "\"", "/*", "//\\\n", "??/\n", "1e", "L", "#", "?", ".", "-", "u8", "0b", "\\"]
+        # every character class of the lexical alphabet as a long run of one character (lexer only: cheap)
+        singles = list("0179aAzZ_xXeEpPuUlLfF+*/%<>=!&|^~,;:)]}$`") + ["\t", " ", "\n", "\r", "é", "1'", "1.", ".1", "e+", "0.", "''"]
+        for ch in singles:
+            for ln in ([40, 400] if q else [30, 64, 400, 2000]):
+                batch.append(ch * ln)
+                batch.append("a = " + ch * ln + ";")
+            yield from flush("lex_long_run")
         lengths = [90, 150, 400, 1100, 5000] if not q else [150, 1100, 5000]
         plengths = [90, 150, 400] if not q else [110, 250]
         for u in units:
